@@ -27,6 +27,10 @@ R1.7 ragged counter: contour datasets are named curid+ii, the cached group
 R1.8 writer modes: reset truncates, replace deletes exactly the datasets
      that are rewritten (member by member for sub-group features such as
      trace) before anything is written, append keeps them.
+R1.A metadata write-through: every key given to store_metadata is assigned
+     to the HDF5 attributes on every non-raising iteration.
+R1.B stored features win: RTDCBase.__getitem__ tests `self._events` before
+     any exit that serves ancillary or basin data.
 R1.9 reader memo independent of the request: a value a lazy reader caches
      on `self` never depends on named per-call arguments (dtype, copy,
      index) unless the argument is the key of a mapping memo.
@@ -2380,11 +2384,13 @@ def r17(ctx, repo):
     lp = loops[0]
     en = lp.iter
     if not (isinstance(en, ast.Call) and call_name(en) == "enumerate"
-            and len(en.args) == 1 and not en.keywords
+            and 1 <= len(en.args) <= 2
+            and all(k.arg == "start" for k in en.keywords)
             and isinstance(lp.target, ast.Tuple)
             and len(lp.target.elts) == 2):
         raise AnalysisError("write_ragged: loop is not `for i, x in "
                             "enumerate(data)`")
+    en_start = kwarg(en, "start", 1)
     ivar, xvar = [e.id for e in lp.target.elts]
     cd = find_calls(lp, attr="create_dataset")[0]
     grp = txt(cd.func.value)
@@ -2408,9 +2414,22 @@ def r17(ctx, repo):
     def special(node, s):
         if is_counter(node):
             return S("cur")
+        if isinstance(node, ast.Name) and node.id not in s.bind:
+            # a local that is the cached count on every path: read from the
+            # cache, or bound together with the cache entry
+            # (`cur = cache[k] = len(grp)` in a get-or-create)
+            defs = [n for n in walk(wr) if isinstance(n, ast.Assign)
+                    and any(isinstance(t, ast.Name) and t.id == node.id
+                            for t in n.targets)]
+            if len(defs) > 1 and all(
+                    is_counter(d.value) or any(is_counter(t)
+                                               for t in d.targets)
+                    for d in defs):
+                return S("cur")
         return None
     sym = Sym(wr, {"data"}, S("n"), special)
-    sym.bind[ivar] = S("i")
+    sym.bind[ivar] = S("i") + (sym.rat(en_start) if en_start is not None
+                               else K(0))
     name = decimal_name_arg(kwarg(cd, "name", 0))
     if name is None:
         # R1.5 reports the non-decimal name; nothing to decide here
@@ -2463,15 +2482,28 @@ def r17(ctx, repo):
     # initialisation from len(group)
     inits = [n for n in walk(wr) if isinstance(n, ast.Assign)
              and any(is_counter(t) for t in n.targets)]
+    def when_absent(st):
+        """the statement runs exactly when the key is not cached yet"""
+        par = st.parent
+        if isinstance(par, ast.If) and st in par.body:
+            t = par.test
+            return isinstance(t, ast.Compare) and len(t.ops) == 1 \
+                and isinstance(t.ops[0], ast.NotIn) \
+                and txt(t.left) == keytxt \
+                and is_self_attr(t.comparators[0], "_group_sizes")
+        if isinstance(par, ast.ExceptHandler) and par.type is not None \
+                and txt(par.type) == "KeyError" \
+                and isinstance(par.parent, ast.Try):
+            # try: <read cache[key]> except KeyError: <init>
+            body = par.parent.body
+            return len(body) == 1 and isinstance(body[0], ast.Assign) \
+                and is_counter(body[0].value) \
+                and len(par.parent.handlers) == 1
+        return False
     ok = len(inits) == 1 and isinstance(inits[0].value, ast.Call) \
         and call_name(inits[0].value) == "len" \
         and txt(inits[0].value.args[0]) == grp \
-        and isinstance(inits[0].parent, ast.If) \
-        and isinstance(inits[0].parent.test, ast.Compare) \
-        and isinstance(inits[0].parent.test.ops[0], ast.NotIn) \
-        and txt(inits[0].parent.test.left) == keytxt \
-        and is_self_attr(inits[0].parent.test.comparators[0],
-                         "_group_sizes") \
+        and when_absent(inits[0]) \
         and inits[0].lineno < lp.lineno
     ctx.ob("R1.7", ok, "an unknown group starts at its stored size" if ok
            else "the cached size of an unknown group is not initialised "
@@ -2852,6 +2884,133 @@ def r19(ctx, repo):
 
 
 # ----------------------------------------------------------------------
+# R1.A metadata write-through
+
+def r1a(ctx, repo):
+    """store_metadata writes every key it is given: in the loop that stores
+    the HDF5 attributes every iteration that does not raise assigns
+    `self.h5file.attrs[<sec:key>]` – no path skips the assignment depending
+    on what the file already holds (the last call defines value and type)."""
+    f = wfunc(repo, WR, "RTDCWriter.store_metadata")
+    stores = [n for n in walk(f) if isinstance(n, ast.Assign)
+              and isinstance(n.targets[0], ast.Subscript)
+              and txt(n.targets[0].value) == "self.h5file.attrs"]
+    if not stores:
+        raise AnalysisError("store_metadata: attribute store lost")
+    loops = []
+    for st in stores:
+        lp = _loop_of(st, f)
+        if lp is None:
+            raise AnalysisError("store_metadata: attribute store outside "
+                                "the key loop")
+        if all(lp is not x for x in loops):
+            loops.append(lp)
+    if len(loops) != 1:
+        raise AnalysisError("store_metadata: several storing loops")
+    lp = loops[0]
+    cfg = CFG(f)
+    s_ids = {i for st in stores for i in cfg.ids_of(st)}
+    heads = set(cfg.ids_of(lp))
+    first = cfg.ids_of(lp.body[0])
+    ok = True
+    for h in heads:
+        for i in first:
+            if not cfg.must_pass(lambda n: n.id in s_ids, dst=h, src=i,
+                                 avoid_edge=lambda a, lab, b: lab == "x"):
+                ok = False
+    skip = [n for n in walk(lp) if isinstance(n, (ast.Continue, ast.Break))]
+    ctx.ob("R1.A", ok, "every key of the given metadata is assigned to the "
+           "HDF5 attributes" if ok else
+           "an iteration of the storing loop can end without assigning the "
+           "attribute"
+           + (f" (`{short(skip[0].parent.test, 50)}` -> "
+              f"{type(skip[0]).__name__.lower()})" if skip and isinstance(
+                  skip[0].parent, ast.If) else "")
+           + ": the file keeps the previously stored value and type",
+           node=skip[0] if skip and not ok else lp,
+           label="every given key is stored")
+    # the key is section:key of the iteration
+    keys = {txt(st.targets[0].slice) for st in stores}
+    kdefs = [n for n in walk(lp) if isinstance(n, ast.Assign)
+             and isinstance(n.targets[0], ast.Name)
+             and n.targets[0].id in keys]
+    ok = len(keys) == 1 and len(kdefs) == 1 and isinstance(
+        kdefs[0].value, ast.JoinedStr) and len([
+            v for v in kdefs[0].value.values
+            if isinstance(v, ast.FormattedValue)]) == 2 and ":" in "".join(
+            const_str(v) or "" for v in kdefs[0].value.values)
+    ctx.ob("R1.A", ok, "attributes are named <section>:<key>" if ok else
+           "attribute name is not built as <section>:<key>",
+           node=kdefs[0] if kdefs else lp, label="attribute name",
+           nontrivial=False)
+
+
+# ----------------------------------------------------------------------
+# R1.B stored features win
+
+CORE = "dclab/rtdc_dataset/core.py"
+
+
+def r1b(ctx, repo):
+    """`RTDCBase.__getitem__` serves a feature that is stored in the file
+    (`self._events`) from the file: every exit that hands out data from
+    another source (ancillary cache or computation, basins) is dominated by
+    the failed membership test of `self._events` – otherwise what is read
+    back depends on the access history, not on what was written."""
+    f = repo.func(CORE, "RTDCBase.__getitem__")
+    params = [a.arg for a in f.args.args]
+    if len(params) != 2:
+        raise AnalysisError("RTDCBase.__getitem__: signature changed")
+    key = params[1]
+    cfg = CFG(f)
+
+    def is_events_test(n):
+        if n.ast is None or n.kind != "test":
+            return False
+        return any(isinstance(c, ast.Compare) and len(c.ops) == 1
+                   and isinstance(c.ops[0], (ast.In, ast.NotIn))
+                   and txt(c.left) == key
+                   and is_self_attr(c.comparators[0], "_events")
+                   for c in ast.walk(n.ast.test))
+    tests = [n for n in cfg.nodes if is_events_test(n)]
+    own = [n for n in walk(f) if isinstance(n, ast.Return)
+           and isinstance(n.value, ast.Subscript)
+           and is_self_attr(n.value.value, "_events")
+           and txt(n.value.slice) == key]
+    if not tests or not own:
+        raise AnalysisError("RTDCBase.__getitem__: lookup of the stored "
+                            "features lost")
+    others = [n for n in walk(f) if isinstance(n, ast.Return)
+              and n not in own and n.value is not None
+              and not (isinstance(n.value, ast.Subscript)
+                       and is_self_attr(n.value.value, "_usertemp"))]
+    if not others:
+        raise AnalysisError("RTDCBase.__getitem__: no other data source")
+    bad = [r for r in others
+           if not all(cfg.always_before(i, is_events_test)
+                      for i in cfg.ids_of(r))]
+    ctx.ob("R1.B", not bad,
+           f"all {len(others)} exits serving computed / basin data come "
+           f"after the lookup of the stored features" if not bad else
+           f"`{short(bad[0], 30)}` (line {bad[0].lineno}) can be reached "
+           f"before `{key} in self._events` was tested: a cached or basin "
+           f"value shadows the feature stored in the file", node=bad[0]
+           if bad else f, label="stored features are served first")
+    # the stored feature is returned on the positive branch
+    ok = True
+    for r in own:
+        g = r.parent
+        ok = ok and isinstance(g, ast.If) and r in g.body and any(
+            isinstance(c, ast.Compare) and isinstance(c.ops[0], ast.In)
+            and is_self_attr(c.comparators[0], "_events")
+            for c in ast.walk(g.test))
+    ctx.ob("R1.B", ok, "a stored feature is returned as stored" if ok else
+           "the stored feature is not returned on the branch that found it",
+           node=own[0], label="stored feature returned on hit",
+           nontrivial=False)
+
+
+# ----------------------------------------------------------------------
 
 def run(ctx):
     repo = ctx.repo
@@ -2882,6 +3041,10 @@ def run(ctx):
              "data only – named per-call arguments never flow into a "
              "self.<attr> memo (except as its key)", minimum=8)
 
+    ctx.rule("R1.A", "store_metadata assigns every given key (no skip that "
+             "depends on the stored value)", minimum=2)
+    ctx.rule("R1.B", "RTDCBase.__getitem__ serves stored features before "
+             "cached ancillary / basin data", minimum=2)
     wn = wfunc(repo, WR, "RTDCWriter.write_ndarray")
     fr = find_frame(wn)
 
@@ -2927,6 +3090,8 @@ def run(ctx):
     r17(ctx, repo)
     r18(ctx, repo)
     r19(ctx, repo)
+    r1a(ctx, repo)
+    r1b(ctx, repo)
 
 
 
@@ -3130,6 +3295,57 @@ def _enumerate_from_zero(src):
     return _enumerate_from_offset(src, start="0")
 
 
+def _ragged_try_except(src, start="curid"):
+    old = ("        if grp not in self._group_sizes:\n"
+           "            self._group_sizes[grp] = len(grp)\n"
+           "        curid = self._group_sizes[grp]\n"
+           "        for ii, cc in enumerate(data):\n"
+           '            grp.create_dataset("{}".format(curid + ii),\n')
+    if src.count(old) != 1:
+        return src
+    return src.replace(
+        old, "        try:\n"
+        "            curid = self._group_sizes[grp]\n"
+        "        except KeyError:\n"
+        "            curid = self._group_sizes[grp] = len(grp)\n"
+        f"        for dset_id, cc in enumerate(data, start={start}):\n"
+        "            grp.create_dataset(str(dset_id),\n")
+
+
+def _ragged_try_except_late(src):
+    return _ragged_try_except(src, start="curid + 1")
+
+
+_META_STORE = (
+    '                if sec == "user":\n'
+    '                    # store user-defined metadata as-is\n'
+    '                    self.h5file.attrs[idk] = value\n'
+    '                else:\n'
+    '                    # pipe the metadata through the hard-coded converter\n'
+    '                    # functions\n'
+    '                    convfunc = dfn.get_config_value_func(sec, ck)\n'
+    '                    self.h5file.attrs[idk] = convfunc(value)\n')
+
+
+def _metadata_single_store(src, skip=False):
+    if src.count(_META_STORE) != 1:
+        return src
+    new = ('                if sec != "user":\n'
+           '                    convfunc = dfn.get_config_value_func(sec, ck)\n'
+           '                    value = convfunc(value)\n')
+    if skip:
+        new += ('                if (idk in self.h5file.attrs\n'
+                '                        and np.array_equal('
+                'self.h5file.attrs[idk], value)):\n'
+                '                    continue\n')
+    new += '                self.h5file.attrs[idk] = value\n'
+    return src.replace(_META_STORE, new)
+
+
+def _metadata_skip_equal(src):
+    return _metadata_single_store(src, skip=True)
+
+
 MUTANTS = [
     # R1.1
     ("ndarray: offset read after the resize", WR,
@@ -3244,6 +3460,29 @@ MUTANTS = [
      _single_stepped_loop_short, "R1.2"),
     ("dict dispatch of the reader lost the mask wrapper", EV,
      _reader_dict_dispatch_without_mask, "R1.5"),
+    ("cached ancillary data looked up before the stored features", CORE,
+     ("        if feat in self._events:\n"
+      "            return self._events[feat]\n"
+      "        elif feat in self._usertemp:\n"
+      "            return self._usertemp[feat]\n"
+      "        # 1. Check for cached ancillary data\n"
+      "        data = self._get_ancillary_feature_data(feat, "
+      "no_compute=True)\n"
+      "        if data is not None:\n"
+      "            return data\n",
+      "        if feat in self._ancillaries:\n"
+      "            data = self._get_ancillary_feature_data(feat, "
+      "no_compute=True)\n"
+      "            if data is not None:\n"
+      "                return data\n"
+      "        if feat in self._events:\n"
+      "            return self._events[feat]\n"
+      "        elif feat in self._usertemp:\n"
+      "            return self._usertemp[feat]\n"), "R1.B"),
+    ("metadata equal to the stored value are not rewritten", WR,
+     _metadata_skip_equal, "R1.A"),
+    ("ragged entries enumerated from count + 1", WR,
+     _ragged_try_except_late, "R1.7"),
     ("lines enumerated from 0 instead of the line offset", WR,
      _enumerate_from_zero, "R1.1"),
     # round 3
@@ -3382,6 +3621,15 @@ TWINS = [
     ("item-size test mirrored", WR,
      ("and txt_dset.dtype.itemsize < max_length):",
       "and max_length > txt_dset.dtype.itemsize):")),
+    ("ragged counter get-or-create by try/except, enumerate(start=count)",
+     WR, _ragged_try_except),
+    ("metadata converted first, stored by one assignment", WR,
+     _metadata_single_store),
+    ("stored and temporary lookups as two early returns", CORE,
+     ("        elif feat in self._usertemp:\n"
+      "            return self._usertemp[feat]\n",
+      "        if feat in self._usertemp:\n"
+      "            return self._usertemp[feat]\n")),
 ]
 
 # mutants that re-introduce the repaired defects (apply to the fixed tree)
